@@ -100,6 +100,17 @@ def laws(ivs, times, rng, budget):
             r = py(lambda: (A < B, A == B, A > B))
             if r == 'assert' or sum(map(bool, r)) != 1:
                 record('trichotomy', a=a, b=b, observed=str(r)); continue
+            # the derived comparisons agree with `<` and `==`, and the minimum kept by update_min is the one that
+            # never yields the later arrival
+            q = py(lambda: (A <= B, A >= B))
+            if q == 'assert' or bool(q[0]) != bool(r[0] or r[1]) or bool(q[1]) != bool(r[2] or r[1]):
+                record('trichotomy', a=a, b=b, observed=f'(<, ==, >) = {r} but (<=, >=) = {q}'); continue
+            u = py(lambda: update_min(A, B))
+            kept = A if u is None else u
+            for t in ts:
+                x = py(lambda: (TT(*t) + kept, TT(*t) + A, TT(*t) + B))
+                if u == 'assert' or x == 'assert' or x[0] > x[1] or x[0] > x[2]:
+                    record('smaller_delay_never_later', a=a, b=b, t=t, observed=f'update_min(a, b) keeps {kept}: arrival {x[0] if x != "assert" else x} is later than with the other delay'); break
             if r[0]:
                 nontriv.add(('lt', a, b))
                 for t in ts:
@@ -389,10 +400,12 @@ def replay(path, out):
     print('replaying', r['law'], {k: r[k] for k in ('a', 'b', 'c', 't') if k in r})
     A, B = g('a'), g('b')
     if r['law'] == 'trichotomy':
-        res = py(lambda: (A < B, A == B, A > B)); print('observed (<,==,>):', res)
-        bad = res == 'assert' or sum(map(bool, res)) != 1
+        res = py(lambda: (A < B, A == B, A > B, A <= B, A >= B)); print('observed (<,==,>,<=,>=):', res)
+        bad = res == 'assert' or sum(map(bool, res[:3])) != 1 or bool(res[3]) != bool(res[0] or res[1]) or bool(res[4]) != bool(res[2] or res[1])
     elif r['law'].startswith('smaller'):
-        t = TT(*r['t']); res = (A < B, t + A, t + B); print('a<b, t+a, t+b:', res); bad = res[0] and res[1] > res[2]
+        t = TT(*r['t']); u = update_min(A, B); kept = A if u is None else u
+        res = (A < B, t + A, t + B, t + kept); print('a<b, t+a, t+b, t+(the one update_min keeps):', res)
+        bad = (res[0] and res[1] > res[2]) or res[3] > res[1] or res[3] > res[2]
     elif r['law'] == 'path_closure':
         from .. import tracelib
         f = closure_one(r['case'], convex=tracelib.convex(r['case'])); print(f['observed'] if isinstance(f, dict) else 'cached delays agree with hop-by-hop application'); bad = isinstance(f, dict)
